@@ -53,6 +53,7 @@ type layerGen struct {
 	feat     map[string]int
 	lowest   bool
 	noHidden bool
+	zeroDev  bool // the next device entry gets device number 0/0
 }
 
 func parentOf(p string) string {
@@ -213,10 +214,15 @@ func (g *layerGen) addNonDir(p string, t byte) bool {
 		e.Mode = 0o644
 		g.feat["hardlink"]++
 	case tar.TypeChar, tar.TypeBlock:
-		e.Mode = 0o660
-		// never 0/0: a genuine 0/0 character device IS a whiteout for overlayfs
+		// locked-down device nodes (mode 0000) are common; a char device with mode 0000 is
+		// served with exactly the mode bits of a synthesised whiteout
+		e.Mode = int64(g.rng.Pick(0, 0, 0o660, 0o600, 0o666))
 		e.Devmajor = int64(g.rng.Pick(1, 5, 8, 254))
 		e.Devminor = int64(g.rng.Pick(0, 1, 3, 255))
+		if g.zeroDev {
+			// a raw overlayfs whiteout shipped as a real entry (block 0/0 is just a device)
+			e.Devmajor, e.Devminor = 0, 0
+		}
 	case tar.TypeFifo:
 		e.Mode = 0o640
 	}
@@ -309,6 +315,47 @@ func (g *layerGen) op() {
 	curDirs, curAll := collect(g.cur)
 	x := rng.Intn(100)
 	switch {
+	case x >= 18 && x < 28: // real device entries, with and without a ".wh." twin
+		d := g.pickDir()
+		n := rng.PickS("dev", "null", "f", "a")
+		if len(curAll) > 0 && rng.Chance(1, 3) {
+			p := curAll[rng.Intn(len(curAll))]
+			d, n = parentOf(p), path.Base(p)
+		}
+		p := join(d, n)
+		if _, ok := g.kind[p]; ok || g.wh[p] {
+			return
+		}
+		t := byte(tar.TypeChar)
+		if rng.Chance(1, 3) {
+			t = tar.TypeBlock
+		}
+		g.zeroDev = rng.Chance(1, 3)
+		zero := g.zeroDev && t == tar.TypeChar
+		twin := rng.Chance(1, 3)
+		ok := false
+		if twin && rng.Bool() {
+			ok = g.addWhiteout(d, n) && g.addNonDir(p, t)
+		} else {
+			ok = g.addNonDir(p, t)
+			if ok && twin {
+				twin = g.addWhiteout(d, n)
+			}
+		}
+		g.zeroDev = false
+		if !ok {
+			return
+		}
+		g.feat["device"]++
+		if twin {
+			g.feat["device+wh-twin"]++
+		}
+		if zero {
+			g.feat["real-0/0-chardev"]++
+			if lookup(g.cur, p) != nil {
+				g.feat["real-0/0-chardev-hides-lower"]++
+			}
+		}
 	case x < 28: // addition
 		p := join(g.pickDir(), fileNames[rng.Intn(len(fileNames))])
 		old := lookup(g.cur, p)
@@ -479,8 +526,7 @@ func (g *layerGen) op() {
 }
 
 // Generate draws a stack inside the domain of the statement: it never puts a whiteout
-// of a name and a directory of that name into one layer, never writes a genuine 0/0
-// character device, no duplicate names within a layer, no explicit root entry, and an
+// of a name and a directory of that name into one layer, no duplicate names within a layer, no explicit root entry, and an
 // opaque marker in the root only in the lowest layer (where OCI gives it no effect;
 // the kernel ignores the opaque xattr of a lowerdir root).
 func Generate(rng *prng.R, o Opts) *Stack {
